@@ -104,6 +104,7 @@ Print Assumptions C07_model_is_the_stable_instance.
    merge — and its final output have strictly ascending keys: the Writer they are streamed into never
    hits its order assertion (C18) and the file reads back as exactly that list (C01), which is what
    modelling a chunk file by the entries it holds relies on *)
+From Grenad.model Require Import Reader Spec.
 From Grenad.proofs Require Import SorterChunks.
 
 Theorem C07_chunks_sorted : forall c mf ins st, s_inserts c mf (s_new c) ins = Done st -> Forall ssorted (ss_chunks st).
